@@ -347,7 +347,7 @@ func genHistory(r *rng.R, scatter bool) history {
 	var h history
 	o := gen10.GenOpt{RulesPct: 30, TiFlashPct: 12, MinStores: 3, MaxStores: 8, HealthyBias: 55, ExactPeers: true}
 	h.Spec = gen10.Generate(r, o)
-	if scatter && h.Spec.Cfg.MaxReplicas > 4 && r.Pct(50) {
+	if scatter && h.Spec.Cfg.MaxReplicas > 4 && r.Pct(85) {
 		h.Spec.Cfg.MaxReplicas = 3 + r.Intn(2) // five ordinary peers = 120 processing orders per call: half of the time
 	}
 	if !scatter {
